@@ -617,11 +617,28 @@ bool qtreetbl_getnext(qtreetbl_t *tbl, qtreetbl_obj_t *obj, const bool newmem) {
             cursor = cursor->left;
             continue;
         } else if (cursor->tid != tid) {
+            void *copyname = NULL;
+            void *copydata = NULL;
+            if (newmem) {
+                copyname = qmemdup(cursor->name, cursor->namesize);
+                copydata = qmemdup(cursor->data, cursor->datasize);
+                if (copyname == NULL
+                    || (copydata == NULL && cursor->data != NULL
+                        && cursor->datasize > 0)) {
+                    free(copyname);
+                    free(copydata);
+                    // stay on this node, so the call can be tried again.
+                    obj->tid = tid;
+                    obj->next = cursor;
+                    errno = ENOMEM;
+                    return false;
+                }
+            }
             cursor->tid = tid;
             *obj = *cursor;
             if (newmem) {
-                obj->name = qmemdup(cursor->name, cursor->namesize);
-                obj->data = qmemdup(cursor->data, cursor->datasize);
+                obj->name = copyname;
+                obj->data = copydata;
             }
             obj->next = cursor;  // store original address in tree for next iteration
             return true;
